@@ -27,10 +27,11 @@ The strongest statement is `rest_roundtrip_full`: the parser returns **exactly**
 `:param :cvar :ivar :var :type :raises :return :rtype` inside}; names pairwise distinct, each {no `:`/line break,
 ≠ `return_type`, no leading `*`, not ending in `kwargs`}; every entry (parameters and return) has a description
 {non-empty, one line, no ReST field token inside, no blank at either end, no `Defaults`/`defaults`, none of the 8 announce
-phrases (case-insensitively), no `(`, the emitted ` Defaults to ` is the first `defaults to ` of the completed line, not
-starting with `Optional`}, a type that is absent or {non-empty, one line, no `:`, no backtick, not ending in
+phrases (case-insensitively; neither bare nor after `(`), the emitted ` Defaults to ` is the first `defaults to ` of the
+completed line, not starting with `Optional` or `(Optional)`}, a type that is absent or {non-empty, one line, no `:`, no backtick, not ending in
 `, optional`}, a default that is absent or {an integer or a boolean, and the declared type — if any — is not one of
-`int float complex str bool` other than the default's own}.  Colons as such are allowed in descriptions and headers.
+`int float complex str bool` other than the default's own}.  Colons and parentheses as such are allowed in descriptions
+and headers.
 
 **Essential** (each with a counterexample on the model below, `…_needed`; those marked † were also replayed on the real
 `cdd.docstring.emit.docstring` / `cdd.docstring.parse.docstring` and fail there in the same way):
@@ -40,14 +41,14 @@ real code wraps the type in `Optional[…]`) †; description not starting with 
 `Optional[int]`); type not ending in `, optional` † (`optional_suffix_needed`); declared simple type = default's type †
 (`compat_needed`: `5` under `bool` comes back as `True`; under `float` the real code answers `5.0`, the model abstains);
 no announce phrase in a description † (`announce_needed`: a default appears from nowhere; the real code raises
-`SyntaxError` on "x defaults to 7 here"); no `Defaults`/`defaults` when a default is to be carried
+`SyntaxError` on "x defaults to 7 here"; `paren_announce_needed`: after `(` the model abstains); no `Defaults`/`defaults` when a default is to be carried
 (`defaults_word_needed`: the default is not emitted and is lost); no blank at either end of a description †
 (`trailing_blank_needed`: comes back stripped) or of the header † (`header_blank_needed`; a leading blank re-indents the
 whole docstring); one-line descriptions (`two_line_doc_needed`); no ReST token inside a description or header †
 (`token_in_doc_needed`); every parameter has a description when types are not emitted (`docless_needed`: no trace is left).
 
-**Proof convenience only** (the round trip also holds outside, see the replayed cases in the report): *no `(`* in
-descriptions (inherited from `C01.GoodBase`; what matters is `(<announce phrase>`); *no colon* and *no backtick* in types
+**Proof convenience only** (the round trip also holds outside, see the replayed cases in the report): *no colon* and
+*no backtick* in types
 (what matters is no field token and no run of three backticks; a single backtick is harmless);
 entries *must* have a description (a type-only entry round-trips when types are emitted); defaults restricted to
 integers and booleans (strings and decimals have value-level theorems in Properties/C01.lean that are not yet lifted to
@@ -217,14 +218,14 @@ theorem rest_roundtrip_exact (ir : IR) (ww edd : Bool) (h : InDomain ir) (s : St
 
 /-- header, four parameters (typed without default; typed `int` with default 10; untyped with default `True` and a
     description ending in a comma; typed `Optional[int]` with default −3 and a description ending in a full stop),
-    a colon inside a description, and a typed return entry -/
+    a colon and parentheses inside descriptions, and a typed return entry -/
 def exIR : IR :=
   { doc := cs!"Train it.",
     params := [
       (cs!"lr", { typ := some cs!"float", doc := some cs!"learning rate: step size" }),
       (cs!"epochs", { typ := some cs!"int", doc := some cs!"how long", default := some (.int 10) }),
       (cs!"verbose", { doc := some cs!"print progress,", default := some (.bool true) }),
-      (cs!"offset", { typ := some cs!"Optional[int]", doc := some cs!"shift by this.", default := some (.int (-3)) })],
+      (cs!"offset", { typ := some cs!"Optional[int]", doc := some cs!"shift by this (in steps).", default := some (.int (-3)) })],
     returns := some { typ := some cs!"str", doc := some cs!"the result" } }
 
 /-- the example is in the domain -/
@@ -232,7 +233,7 @@ example : InDomain exIR := by decide +kernel
 
 set_option maxRecDepth 100000 in
 /-- `emit` answers on it (all types and defaults emitted, word wrap on) -/
-example : emit exIR .rest true true true = .ok cs!"Train it.\n\n:param lr: learning rate: step size\n:type lr: ```float```\n\n:param epochs: how long. Defaults to 10\n:type epochs: ```int```\n\n:param verbose: print progress, Defaults to True\n\n:param offset: shift by this. Defaults to -3\n:type offset: ```Optional[int]```\n\n:return: the result\n:rtype: ```str```\n" := by
+example : emit exIR .rest true true true = .ok cs!"Train it.\n\n:param lr: learning rate: step size\n:type lr: ```float```\n\n:param epochs: how long. Defaults to 10\n:type epochs: ```int```\n\n:param verbose: print progress, Defaults to True\n\n:param offset: shift by this (in steps). Defaults to -3\n:type offset: ```Optional[int]```\n\n:return: the result\n:rtype: ```str```\n" := by
   decide +kernel
 
 /-- hence (instance of `rest_roundtrip_full`, not an evaluation): the parse result is `expIR exIR true true` -/
@@ -307,6 +308,14 @@ theorem announce_needed :
     roundTrip { params := [(cs!"a", { doc := some cs!"x defaults to 7" })] } true true true
       = some { params := [(cs!"a", { typ := some cs!"int", doc := some cs!"x defaults to 7", default := some (.int 7) })] } := by
   decide +kernel
+
+/-- a parenthesised announce phrase: the model abstains (`extract_default`'s bracket handling is not modelled);
+    a description starting with `(Optional)` wraps the declared type -/
+theorem paren_announce_needed :
+    roundTrip { params := [(cs!"a", { doc := some cs!"(defaults to 5) x" })] } true true true = Option.none
+    ∧ roundTrip { params := [(cs!"a", { typ := some cs!"int", doc := some cs!"(Optional) weight" })] } true true true
+      = some { params := [(cs!"a", { typ := some cs!"Optional[int]", doc := some cs!"(Optional) weight" })] } := by
+  constructor <;> decide +kernel
 
 /-- a description that mentions `defaults` gets no prose appended: the default is lost -/
 theorem defaults_word_needed :
